@@ -40,7 +40,7 @@ def rand_invocation(rng, bindir):
     d, d2 = D.ymd(), D2.ymd()
     dt, dt2 = d + "T" + hms(s), d2 + "T" + hms(s2)
     lines = ("\n".join(rng.choice([d, dt2, "x " + d2 + " y", dt, "nothing here"]) for _ in range(6)) + "\n").encode()
-    k = rng.randrange(26)
+    k = rng.randrange(32)
     if k == 0:
         return [T("dconv"), dt, "-f", "%A %d %B %Y %H:%M:%S %j %V %u %a %b"], b"", "dconv-f"
     if k == 1:
@@ -93,7 +93,23 @@ def rand_invocation(rng, bindir):
         return [T("dconv"), "--base", base, "-i", "%_y %b %d", "%d %s %02d" % (rng.randrange(10), cal.MON_ABBR[D.m - 1], min(D.d, 28))], b"", "base-y1"
     if k == 24:
         return [T("dround"), "--base", base, "-i", "%d", "%02d" % rng.randrange(1, 29), "Mon"], b"", "base-dround"
-    return [T("dseq"), "--base", base, "-i", "%d", "%02d" % rng.randrange(1, 10), "%02d" % rng.randrange(10, 29)], b"", "base-dseq"
+    if k == 25:
+        return [T("dseq"), "--base", base, "-i", "%d", "%02d" % rng.randrange(1, 10), "%02d" % rng.randrange(10, 29)], b"", "base-dseq"
+    md = lambda: "%02d-%02d" % (rng.randrange(1, 13), rng.randrange(1, 29))
+    mdlines = ("\n".join(rng.choice(["x %s y" % md(), md(), "nothing"]) for _ in range(8)) + "\n").encode()
+    if k == 26:
+        return [T("dgrep"), "--base", base, "-i", "%m-%d", rng.choice([">=", "<", "="]) + md()], mdlines, "base-dgrep"
+    if k == 27:
+        y2 = lambda: "%02d-%s" % (rng.choice([0, 68, 69, 70, 99, rng.randrange(100)]), md())
+        y2lines = ("\n".join(y2() for _ in range(8)) + "\n").encode()
+        return [T("dgrep"), "--base", base, "-i", "%y-%m-%d", rng.choice([">=", "<"]) + y2()], y2lines, "base-dgrep-y2"
+    if k == 28:
+        return [T("dtest"), "--base", base, "-i", "%m-%d", md(), rng.choice(["--lt", "--ge", "--cmp"]), md()], b"", "base-dtest"
+    if k == 29:
+        return [T("ddiff"), "--base", base, "-i", "%m-%d", md(), md(), "-f", "%d"], b"", "base-ddiff"
+    if k == 30:
+        return [T("dsort"), "--base", base, "-i", "%m-%d"], mdlines, "base-dsort"
+    return [T("dconv"), "--base", base, "-i", "%m-%d", "-S", "-f", "%F"], mdlines, "base-dconv-sed"
 
 
 def config_task(task):
@@ -176,8 +192,13 @@ def locale_pair_task(task):
         B = L[lb] if lb else EN
         tool = rng.choice(["dconv", "dconv", "dadd", "dround", "dseq"])
         long_ = rng.random() < .5
-        ifmt, ofmt = ("%A %d %B %Y", "%A, %d %B %Y") if long_ else ("%a %d %b %Y", "%a, %d %b %Y")
         ka, kb = ("A", "B") if long_ else ("a", "b")
+        # input layouts: the name may lead the text (the stream scanner then has to find it by its length range)
+        lay = rng.choice(["wdmy", "wdmy", "mdy", "dmy"])
+        via = rng.choice(["arg", "arg", "stdin", "sed"]) if tool in ("dconv", "dadd", "dround") else "arg"
+        W, M = ("%A", "%B") if long_ else ("%a", "%b")
+        ifmt = {"wdmy": W + " %d " + M + " %Y", "mdy": M + " %d, %Y", "dmy": "%d. " + M + " %Y"}[lay]
+        ofmt = W + ", %d " + M + " %Y"
         days = [cal.Day(rng.randrange(cal.ORD_MIN + 400, cal.ORD_MAX - 1500)) for _ in range(ndays)]
         texts, exps = [], []
         for D in days:
@@ -191,7 +212,9 @@ def locale_pair_task(task):
             else:
                 R = D
             # the rows of data/locale run Monday..Sunday, January..December
-            texts.append("%s %02d %s %04d" % (A[ka][D.wd], D.d, A[kb][D.m - 1], D.y))
+            texts.append({"wdmy": "%s %02d %s %04d" % (A[ka][D.wd], D.d, A[kb][D.m - 1], D.y),
+                          "mdy": "%s %02d, %04d" % (A[kb][D.m - 1], D.d, D.y),
+                          "dmy": "%02d. %s %04d" % (D.d, A[kb][D.m - 1], D.y)}[lay])
             exps.append("%s, %02d %s %04d" % (B[ka][R.wd], R.d, B[kb][R.m - 1], R.y))
         opts = []
         if la:
@@ -207,16 +230,24 @@ def locale_pair_task(task):
                 argv = [str(bindir / tool)] + opts + ["-i", ifmt, "-f", ofmt, txt, txt]
             else:
                 argv = [str(bindir / tool)] + opts + ["-i", ifmt, "-f", ofmt, txt] + ({"dadd": ["+1d"], "dround": [A["a"][0]]}.get(tool, []))
-            r = run(argv, env=env, cpu=10, wall=60)
+            stdin = b""
+            if via != "arg":
+                # the same text as a stdin line (sed mode: inside other text), the date argument dropped
+                k_ = argv.index(txt)
+                argv = argv[:k_] + argv[k_ + 1:] + (["-S"] if via == "sed" else [])
+                stdin = (("see: " + txt + " ;end\n") if via == "sed" else (txt + "\n")).encode("utf-8")
+                if via == "sed":
+                    exp = "see: " + exp + " ;end"
+            r = run(argv, stdin=stdin, env=env, cpu=10, wall=60)
             sh.procs += 1
             if sh.check_san(r, "locale-pair", "loc:%s" % tool):
                 continue
             got = r.out.decode("utf-8", "replace").rstrip("\n")
-            c = (tool, "from" if la else "-", "to" if lb else "-", "long" if long_ else "abbr")
+            c = (tool, "from" if la else "-", "to" if lb else "-", "long" if long_ else "abbr", lay, via)
             if got == exp:
                 sh.ok("locale-pair", c)
             else:
-                sh.bad("locale-pair", "loc:%s:%s:%s" % (tool, "from" if la else "-", "to" if lb else "-"),
+                sh.bad("locale-pair", "loc:%s:%s:%s:%s:%s" % (tool, "from" if la else "-", "to" if lb else "-", lay, via),
                        "%s -> %r, the name tables say %r" % (core.shq(argv), got, exp), res_replay(r, expected=exp), cls=c)
     return sh
 
@@ -249,13 +280,13 @@ def main(tier, seed):
         tasks.append(("loc", (bindir, seed * 49979687 + i, pairs[i:i + step], 5 if quick else 1)))
     for sh in core.pmap(_dispatch, tasks):
         ctx.merge(sh)
-    ctx.rule = ("'config' events = one invocation (22 fully specified templates over all tools, 8 templates with underspecified input "
-                "plus --base) run under the baseline (TZ=UTC, LC_ALL=C, fixed clock) and under random settings of TZ (15 values incl. "
+    ctx.rule = ("'config' events = one invocation (18 fully specified templates over all tools, 14 templates with underspecified input "
+                "plus --base in dconv, dadd, dround, dseq, dgrep, dtest, ddiff, dsort) run under the baseline (TZ=UTC, LC_ALL=C, fixed clock) and under random settings of TZ (15 values incl. "
                 "POSIX strings, missing files), LANG/LC_ALL/LC_TIME/LANGUAGE (12 values), and the clock injected at gettimeofday()/"
                 "time() (20 instants: epoch, leap days, year ends, 2038, 2100, 3000, 4000 + random, and the real clock); stdout and "
                 "exit status must be identical; on a difference the single responsible setting is isolated; 'control' = the "
                 "injected clock and TZ are really seen (dconv today / dconv -i %d follow the clock, not TZ); 'locale-pair' = "
-                "dconv/dadd/dround/dseq with --from-locale A and/or --locale B in either order and spelling under random LANG: input "
+                "dconv/dadd/dround/dseq with --from-locale A and/or --locale B in either order and spelling under random LANG, the text given as argument, as a stdin line or inside a -S line, name-first and number-first layouts: input "
                 "names read from A's table, output names written from B's table (data/locale is the oracle), absent option = "
                 "English. distinct_nontrivial = distinct (template, which settings differ) + (tool, from/to present, long/abbr)")
     ctx.assumptions = ["inputs without --base that leave fields open follow the clock by design and serve as positive control only",
